@@ -82,8 +82,15 @@ def rotation_rule(ctx, p, K):
         want = sorted((reg_prefix + r, shape_txt, "roe_corner") for r in ("parallel_overscan", "serial_prescan", "serial_overscan"))
         ctx.ob(rule, m.key, got == want, where=m, node=m.node, construct=str(got), message="each of the three regions must be rotated with the layout's shape and the requested corner")
         rets = wire.returns_of(m)
-        kwv = {k: norm_text(v) for k, v in wire.kw(rets[0].value).items()} if rets and isinstance(rets[0].value, ast.Call) else {}
-        ctx.ob(rule, m.key + ":result", kwv == {"original_roe_corner": "roe_corner", "shape_2d": shape_txt, "parallel_overscan": "parallel_overscan", "serial_prescan": "serial_prescan", "serial_overscan": "serial_overscan"},
+        kwn = wire.kw(rets[0].value) if rets and isinstance(rets[0].value, ast.Call) else {}
+        kwv = {k: norm_text(v) for k, v in kwn.items()}
+        # each slot holds the rotation of the region of the same name (directly or through a local bound once)
+        slots_ok = True
+        for r in ("parallel_overscan", "serial_prescan", "serial_overscan"):
+            v = wire.resolve_local(m, kwn[r]) if r in kwn else None
+            slots_ok = slots_ok and v in cs and norm_text(wire.kw(v, fr).get("region")) == reg_prefix + r
+            kwv[r] = "rotated " + r if slots_ok else kwv.get(r)
+        ctx.ob(rule, m.key + ":result", slots_ok and kwv == {"original_roe_corner": "roe_corner", "shape_2d": shape_txt, "parallel_overscan": "rotated parallel_overscan", "serial_prescan": "rotated serial_prescan", "serial_overscan": "rotated serial_overscan"},
                where=m, node=rets[0] if rets else m.node, construct=str(kwv), message="the rotated layout must carry each rotated region in its own slot, the corner and the shape")
     m = c.lookup("original_orientation_from")
     cs = wire.calls_to(p, m, fa.key)
